@@ -223,7 +223,29 @@ func (r *Run) Finish() int {
 		return nil
 	}
 	outDir := filepath.Join(r.Root, "out", r.Property)
-	os.RemoveAll(outDir)
+	// replay: re-evaluate and say whether the recorded finding is still there
+	if r.Replay != "" {
+		var old Violation
+		if b, err := os.ReadFile(r.Replay); err == nil && json.Unmarshal(b, &old) == nil {
+			found := false
+			for _, v := range r.Violations() {
+				if v.Key == old.Key {
+					found = true
+					fmt.Printf("REPLAY: reproduced %s at %s: %s\n", v.Key, v.Pos, v.Msg)
+					if v.Env != "" {
+						fmt.Printf("  env: %s\n", v.Env)
+					}
+				}
+			}
+			if !found {
+				fmt.Printf("REPLAY: the finding %s (recorded at %s) is not reported on the current tree\n", old.Key, old.Pos)
+			}
+		} else {
+			fmt.Printf("REPLAY: cannot read %s\n", r.Replay)
+		}
+	} else {
+		os.RemoveAll(outDir)
+	}
 	exit := 0
 	nviol, nknown := 0, 0
 	for i, v := range r.Violations() {
